@@ -82,6 +82,40 @@ def introspect():
     except Exception as e:
         res['errors'].append('make(tuple): %s: %s' % (type(e).__name__, e)); res['tupleMode'] = 'leave'
 
+    # a wrapper that belongs to ANOTHER object handed to make(): is the result (and everything in it) bound to THIS object?
+    def bound_here(x, o):
+        if isinstance(x, (dict, list)) and not (isinstance(x, TrackedValue) and x.obj_ref() is o and x.attr is attr): return False
+        if isinstance(x, dict): return all(bound_here(v, o) for v in x.values())
+        if isinstance(x, (list, tuple)): return all(bound_here(v, o) for v in x)
+        return True
+    try:
+        other = ProbeObj()
+        foreign = TrackedDict(other, attr, {'l': [[1]]})
+        res['rebinds'] = bool(bound_here(TrackedValue.make(obj, attr, foreign), obj) and bound_here(TrackedValue.make(obj, attr, [foreign['l']]), obj))
+    except Exception as e:
+        res['errors'].append('make(foreign wrapper): %s: %s' % (type(e).__name__, e)); res['rebinds'] = False
+    # obj.attr = <value of another object> on a real entity (JsonConverter.validate)
+    try:
+        from pony.orm import Database, Required, Json, db_session
+        db = Database()
+        class ProbeEntity(db.Entity):
+            data = Required(Json)
+        db.bind('sqlite', ':memory:'); db.generate_mapping(create_tables=True)
+        with db_session:
+            a_ = ProbeEntity(data={'l': [[1]]}); b_ = ProbeEntity(data={})
+            b_.data = a_.data
+            v = b_.data; at = ProbeEntity.data
+            def bound_to(x):
+                if isinstance(x, (dict, list)) and not (isinstance(x, TrackedValue) and x.obj_ref() is b_ and x.attr is at): return False
+                if isinstance(x, dict): return all(bound_to(y) for y in x.values())
+                if isinstance(x, list): return all(bound_to(y) for y in x)
+                return True
+            res['assignRebinds'] = bool(bound_to(v))
+            b_.data = b_.data['l'] if False else b_.data      # (same object, same attribute: kept as it is)
+        db.disconnect()
+    except Exception as e:
+        res['errors'].append('assignment of a foreign wrapper: %s: %s' % (type(e).__name__, e)); res['assignRebinds'] = False
+
     def elem(): return {'k': []}
     def iterable(kind, pairs):
         e = ('p', elem()) if pairs else elem()
@@ -161,6 +195,8 @@ def render(f):
              '  dictOv := %s,' % lst(f['dictOv'], DM),
              '  arrOv := %s,' % lst(f['arrOv'], LM),
              '  tupleMode := .%s,' % f['tupleMode'],
+             '  rebinds := %s,' % ('true' if f['rebinds'] else 'false'),
+             '  assignRebinds := %s,' % ('true' if f['assignRebinds'] else 'false'),
              '  iterUnwrapped := [%s],' % ', '.join('(.%s, .%s)' % (m, k) for m, k in f['iterUnwrapped']),
              '  notifyOnError := %s }' % ('true' if f['notifyOnError'] else 'false'),
              '',
